@@ -419,6 +419,17 @@ Proof.
 Qed.
 
 (* unique ids *)
+Lemma NoDup_snoc {A} (l : list A) x : NoDup l -> ~ In x l -> NoDup (l ++ [x]).
+Proof.
+  induction l as [|y l IH]; cbn [app]; intros Hd Hn.
+  - constructor; [intros [] | constructor].
+  - inversion Hd; subst. constructor.
+    + intros Hin. apply in_app_or in Hin. destruct Hin as [Hin|[Hin|[]]].
+      * contradiction.
+      * subst. apply Hn. left; reflexivity.
+    + apply IH; [assumption|]. intros Hin. apply Hn. right; exact Hin.
+Qed.
+
 Lemma step_nodup g s : NoDup (ids (g_clients g)) -> NoDup (ids (g_clients (fst (step g s)))).
 Proof.
   intros H. destruct s as [r|now j|id uid|b m].
@@ -426,9 +437,7 @@ Proof.
   - destruct (add_client_cases g now j) as [(e & _ & He)|(isop & _ & _ & Hf & He)];
       rewrite He; cbn [fst g_clients]; [exact H|].
     unfold ids. rewrite map_app. cbn [map fst].
-    apply NoDup_rev in H. apply NoDup_rev.
-    rewrite rev_app_distr. cbn [rev app]. constructor; [|exact H].
-    rewrite <- in_rev. exact Hf.
+    apply NoDup_snoc; assumption.
   - destruct (del_client_cases g id uid) as [He|(c & _ & _ & He)];
       cbv zeta in He; rewrite He; cbn [fst]; [exact H|].
     rewrite alk_clients. cbn [g_clients]. apply remove_id_nodup, H.
@@ -516,7 +525,7 @@ Proof.
   pose proof (exec_step _ _ _ _ _ _ Hin) as Hst.
   destruct (admit_conditions_step _ _ _ _ _ Hst Hres Hs Ha) as (Hl & _).
   destruct (has_op (g_clients pre)) eqn:E; [reflexivity|].
-  exfalso. apply (Hpre Hal eq_refl). exact Hl.
+  exfalso. apply (Hpre Hal E). exact Hl.
 Qed.
 
 (* capacity *)
